@@ -21,12 +21,17 @@
          completeness, for command lines of any length
          ([C01_accepts_only_accepting_runs], [C01_search_decides], [C01_search_complete])
       -> matcher steps on tokens are steps on symbols (T4a, [SymProofs.step_fwd] / [step_bwd]).
-    NOT proved: that the executable reference matcher [RefSem.r_match] which the test oracle runs decides
-    [VAccepts] (T4b), and the symbol-level statement for specs with "--" (crossing the atom re-reads the
-    remaining tokens as positionals, which is not a function of the symbols). Both are covered on
-    every run: the implementation's verdict is compared with [r_match] on every claimed case. *)
+    [C01_reference_matcher_decides] (T4b): the executable reference matcher [RefSem.r_match] that the test
+    oracle runs — continuation-passing, with a progress guard on repetitions — decides [VAccepts]
+    (specs without "--", greedy-with-environment mode, no target): a repetition never needs an
+    iteration that changes nothing, and the progressing ones are bounded by the number of symbols.
+    [C01_accepts_iff_reference_says_yes] closes the loop: compiled command accepts <-> reference says Yes.
+    NOT proved: the symbol-level statement for specs with "--" (crossing the atom re-reads the remaining
+    tokens as positionals, which is not a function of the symbols), the ideal (non-greedy) reading of
+    groups (K2), the target (derivation) mode of the reference matcher used by C02. Covered on every
+    run: the implementation's verdict is compared with [r_match] on every claimed case. *)
 From MowCli Require Import Base Parser Nfa Matchers Apply Values Flow Cmd RefSem ApplyProofs TermProofs NfaProofs CompleteProofs PrepareProofs ThompsonProofs StructProofs.
-From MowCli Require Import Lexer View SymProofs.
+From MowCli Require Import Lexer View SymProofs RefProofs.
 
 Theorem C01_accepts_only_accepting_runs :
   forall D g start args bs,
@@ -121,6 +126,28 @@ Theorem C01_symbols :
                 VAccepts (optinfo_of opts) (length opts) e (u, false) bs).
 Proof. exact compile_accepts_iff_symbols. Qed.
 
+(** T4b: the executable reference matcher that the test oracle runs decides the symbol-level language
+    (specs without "--", greedy-with-environment mode, no target) *)
+Theorem C01_reference_matcher_decides :
+  forall D nopts e w u,
+    seq_has_dd e = false -> erase_all (read (View.rdecl_of D) w) = Some u ->
+    (r_match (View.rdecl_of D) (Greedy true) nopts e w None = Yes <-> exists bs, VAccepts D nopts e (u, false) bs).
+Proof. exact r_match_decides. Qed.
+
+(** the loop closed: on a cleanly read command line, a compiled command whose spec has no "--" accepts
+    iff the reference matcher says Yes *)
+Theorem C01_accepts_iff_reference_says_yes :
+  forall opts args spec i toks e a u,
+    compile opts args spec = IOk i ->
+    tokenize spec = LexOk toks ->
+    parse_tokens (lookup_name opts) (lookup_name args) (length spec) toks = ParseOk e ->
+    seq_has_dd e = false -> sane (optinfo_of opts) = true -> view (optinfo_of opts) a = Some u ->
+    ((exists bs, fsm_apply (optinfo_of opts) (i_graph i) (i_start i) a = AOk bs) <->
+     r_match (View.rdecl_of (optinfo_of opts)) (Greedy true) (length opts) e a None = Yes).
+Proof. exact accepts_iff_reference. Qed.
+
+Print Assumptions C01_reference_matcher_decides.
+Print Assumptions C01_accepts_iff_reference_says_yes.
 Print Assumptions C01_matcher_steps_are_symbol_steps.
 Print Assumptions C01_symbols.
 Print Assumptions C01_thompson_correct.
